@@ -207,6 +207,14 @@ Section Geo.
     rewrite N.mul_assoc in H3. lia.
   Qed.
 
+  (* the words of a managed frame exist: its bitfield, its tree entry, its huge entry *)
+  Lemma frame_words_exist fr f :
+    f < fr -> f / HF g < nbf g fr /\ f / TF g < ntab g fr /\ f / HF g < ntab g fr * THUGE g.
+  Proof.
+    intros. pose proof (frame_bitfield_exists fr f H). pose proof (frame_tree_exists fr f H).
+    pose proof (nbf_le_ents fr). repeat split; lia.
+  Qed.
+
   (* ---------------------------------------------------------------- sizes *)
   Lemma lower_size_mono n z : n <= z -> lower_size g n <= lower_size g z.
   Proof.
